@@ -4,6 +4,7 @@ import (
 	"bytes"
 	"encoding/json"
 	"fmt"
+	"sort"
 
 	"github.com/ipld/go-ipld-prime/codec/dagcbor"
 	"github.com/ipld/go-ipld-prime/codec/dagjson"
@@ -510,3 +511,97 @@ func obsClass(m *model.Mismatch) string {
 	}
 	return "mismatch"
 }
+
+// usesUnsupported reports whether a type (anywhere inside) uses what schema/gen/go does not generate.
+func usesUnsupported(g interface{}) bool {
+	m, ok := g.(map[string]interface{})
+	if !ok {
+		return false
+	}
+	if m["k"] == "enum" {
+		return true
+	}
+	if rm, ok := m["repr"].(map[string]interface{}); ok && rm["r"] == "listpairs" {
+		return true
+	}
+	for _, key := range []string{"el", "val"} {
+		if c, ok := m[key]; ok && usesUnsupported(c) {
+			return true
+		}
+	}
+	if fs, ok := m["fs"].([]interface{}); ok {
+		for _, f := range fs {
+			if usesUnsupported(f.(map[string]interface{})["ty"]) {
+				return true
+			}
+		}
+	}
+	if ms, ok := m["ms"].([]interface{}); ok && m["k"] == "union" {
+		for _, x := range ms {
+			if usesUnsupported(x) {
+				return true
+			}
+		}
+	}
+	return false
+}
+
+// GenSupported: is the root type of this case inside the generator's feature set?
+func GenSupported(raw json.RawMessage) bool {
+	var g interface{}
+	if json.Unmarshal(raw, &g) != nil {
+		return false
+	}
+	return !usesUnsupported(g)
+}
+
+// BuildCombinedTypeSystem accumulates every supported root type into ONE type system (names are unique
+// across the catalogue) and returns the names of all types in it.
+func BuildCombinedTypeSystem(roots []json.RawMessage) (*schema.TypeSystem, []string, []string, error) {
+	ts := new(schema.TypeSystem)
+	ts.Init()
+	seen := map[string]bool{}
+	var skipped []string
+	for _, raw := range roots {
+		var g interface{}
+		if err := json.Unmarshal(raw, &g); err != nil {
+			return nil, nil, nil, err
+		}
+		if usesUnsupported(g) {
+			skipped = append(skipped, string(model.Bytes(gBytes(g.(map[string]interface{})["n"]))))
+			continue
+		}
+		if _, err := accumulateGeneric(ts, g, seen); err != nil {
+			return nil, nil, nil, err
+		}
+	}
+	if errs := ts.ValidateGraph(); len(errs) > 0 {
+		return nil, nil, nil, fmt.Errorf("combined type system invalid: %v", errs)
+	}
+	var names []string
+	for n := range ts.GetTypes() {
+		names = append(names, n)
+	}
+	sort.Strings(names)
+	return ts, names, skipped, nil
+}
+
+// ProtoPairEngine adapts a registry of (type-level, representation-level) prototypes -- generated code.
+func ProtoPairEngine(name string, protos map[string][2]datamodel.NodePrototype) Engine {
+	return Engine{name, func(ts *schema.TypeSystem, tn string) (schema.TypedPrototype, error) {
+		pp, ok := protos[tn]
+		if !ok {
+			return nil, fmt.Errorf("no generated prototype for %s", tn)
+		}
+		return pairProto{pp[0], pp[1], ts.TypeByName(tn)}, nil
+	}}
+}
+
+type pairProto struct {
+	typ, repr datamodel.NodePrototype
+	st        schema.Type
+}
+
+func (p pairProto) NewBuilder() datamodel.NodeBuilder       { return p.typ.NewBuilder() }
+func (p pairProto) Type() schema.Type                       { return p.st }
+func (p pairProto) Representation() datamodel.NodePrototype { return p.repr }
